@@ -59,6 +59,16 @@ Inductive ptree := PLeaf (id : Z) | PNode (l r : ptree).
    Gate_Gate, Gate_MProcess, MProcess_Gate, MProcess_MProcess, State_State, StateEnsemble_StateEnsemble, Povm_Povm; 10 / 11 = sparse /
    dense basis of all kron(v1, v2) in itertools.product order; 20 / 21 = State (x) StateEnsemble / StateEnsemble (x) State entry-wise
    with the ensemble's distribution); None = TypeError *)
+(* an argument of tensor_product's star-args `elements`: one operand or a Python list of operands (flattened one level by _to_list) *)
+Inductive parg := AItem (t : ptree) | AList (l : list ptree).
+Definition flatten_args (els : list parg) : list ptree := flat_map (fun e => match e with AList l => l | AItem t => [t] end) els.
+(* _to_list: ValueError (None) when fewer than two operands remain after flattening *)
+Definition to_list_spec (els : list parg) : option (list ptree) :=
+  let l := flatten_args els in if (length l <? 2)%nat then None else Some l.
+(* tensor_product as a whole (star-args `elements`): left fold, in argument order, over the flattened operands *)
+Definition tensor_product_spec (els : list parg) : option ptree :=
+  match flatten_args els with x :: y :: r => Some (fold_left PNode (y :: r) x) | _ => None end.
+
 Definition tp_table : list (Z * Z * Z) :=
   [(0, 0, 0); (0, 1, 1); (1, 0, 2); (1, 1, 3); (2, 2, 10); (3, 3, 11); (4, 4, 4); (4, 5, 20); (5, 4, 21); (5, 5, 5); (6, 6, 6)]%Z.
 Definition tp_dispatch (t1 t2 : Z) : option Z :=
